@@ -29,6 +29,8 @@ func NewPeerSet(discover *p2p.DiscoverManager, dm *deputynode.Manager) *peerSet 
 
 // Size set's length
 func (ps *peerSet) Size() int {
+	ps.lock.RLock()
+	defer ps.lock.RUnlock()
 	return len(ps.peers)
 }
 
@@ -68,7 +70,7 @@ func (ps *peerSet) BestToSync(height uint32) (p *peer) {
 	}
 	peers := make([]*peer, 0)
 	for _, peer := range ps.peers {
-		if peer.lstStatus.CurHeight > height {
+		if peer.LatestStatus().CurHeight > height {
 			peers = append(peers, peer)
 		}
 	}
@@ -99,7 +101,7 @@ func (ps *peerSet) BestToDiscover() *peer {
 	discoverCounter := uint32(0)
 	for res == nil {
 		for _, p := range ps.peers {
-			if p.discoverCounter%loopCount == discoverCounter {
+			if p.DiscoverCounter()%loopCount == discoverCounter {
 				res = p
 				break
 			}
@@ -122,17 +124,17 @@ func (ps *peerSet) BestToFetchConfirms(height uint32) (p *peer) {
 		return nil
 	}
 	for _, peer := range ps.peers {
-		if peer.lstStatus.StaHeight >= height {
+		if st := peer.LatestStatus(); st.StaHeight >= height {
 			p = peer
-			height = peer.lstStatus.StaHeight
+			height = st.StaHeight
 			break
 		}
 	}
 	if p == nil {
 		for _, peer := range ps.peers {
-			if peer.lstStatus.CurHeight >= height {
+			if st := peer.LatestStatus(); st.CurHeight >= height {
 				p = peer
-				height = peer.lstStatus.CurHeight
+				height = st.CurHeight
 				break
 			}
 		}
@@ -142,6 +144,8 @@ func (ps *peerSet) BestToFetchConfirms(height uint32) (p *peer) {
 
 // DeputyNodes filter deputy node
 func (ps *peerSet) DeputyNodes(height uint32) []*peer {
+	ps.lock.RLock()
+	defer ps.lock.RUnlock()
 	peers := make([]*peer, 0)
 	for _, p := range ps.peers {
 		if ps.dm.IsNodeDeputy(height, p.NodeID()[:]) {
@@ -199,6 +203,8 @@ func (ps *peerSet) appendPeerByDistance(peers, deputyNodePeers []*peer, currentH
 
 // DelayNodes filter delay node
 func (ps *peerSet) DelayNodes(height uint32) []*peer {
+	ps.lock.RLock()
+	defer ps.lock.RUnlock()
 	peers := make([]*peer, 0)
 	for _, p := range ps.peers {
 		if ps.dm.IsNodeDeputy(height, p.NodeID()[:]) == false {
@@ -210,10 +216,12 @@ func (ps *peerSet) DelayNodes(height uint32) []*peer {
 
 // LatestStableHeight get peer's latest stable block's height
 func (ps *peerSet) LatestStableHeight() uint32 {
+	ps.lock.RLock()
+	defer ps.lock.RUnlock()
 	height := uint32(0)
 	for _, p := range ps.peers {
-		if p.lstStatus.StaHeight > height {
-			height = p.lstStatus.StaHeight
+		if st := p.LatestStatus(); st.StaHeight > height {
+			height = st.StaHeight
 		}
 	}
 	return height
